@@ -545,6 +545,13 @@ theorem infer_sound_aux : ∀ e : Expr, SoundAt e := by
     exact ⟨E, fun R h => h, hi, fun R _ Δ _ => by
       simp only [tT, Ty.subst]; exact HasType.conB Δ _⟩
 
+/-- Soundness at every unification fuel. -/
+theorem inferF_sound (fuel : Nat) (Γ : Env) (e : Expr) (n : Nat) (τ : Ty) (S : Subst) (n' : Nat)
+    (h : inferF false fuel Γ e Subst.id n = .ok (τ, S, n')) :
+    HasType (denote S Γ) e (τ.subst S) := by
+  obtain ⟨E', _, hi', hty⟩ := infer_sound_aux e fuel Γ Subst.id n τ S n' h [] inv_nil
+  exact hty S hi'.1 _ (envRel_denote S Γ)
+
 /-- Soundness of inference (syntactic rows), all constructs including `let` with
     generalisation: what `infer` accepts is derivable, at the reported type, in the environment
     denoted by `Γ` under the final substitution. -/
